@@ -119,6 +119,7 @@ def run(ctx):
     with ThreadPoolExecutor(max_workers=3) as ex:
         recorded = list(ex.map(record, range(nfiles)))
     trace_records, garbled, idle_deliveries, foreign, demo = 0, 0, 0, 0, None
+    seen_sigs = {}
     for tr, s, ok, at, res in recorded:
         lines = open(tr).read().splitlines()
         bad = bad_lines(res.out_path)
@@ -127,8 +128,12 @@ def run(ctx):
         for b in bad:
             r = json.loads(lines[b["line"] - 1])
             sig, detail = classify(r, b)
-            ctx.mismatch(sig, "record %d: %s" % (b["line"], detail),
-                         {"kind": "trace", "prefix": vlib.trace_prefix(tr, b["line"])})
+            seen_sigs[sig] = seen_sigs.get(sig, 0) + 1
+            prefix = None
+            if seen_sigs[sig] <= 3:     # only the first few of a signature are written as replay files
+                a = max(i for i in range(b["line"]) if '"Reset"' in lines[i])
+                prefix = [json.loads(x) for x in lines[a:b["line"]]]
+            ctx.mismatch(sig, "record %d: %s" % (b["line"], detail), {"kind": "trace", "prefix": prefix})
         garbled += s.get("garbled_completions", 0)
         idle_deliveries += s.get("idle_deliveries", 0)
         foreign += s.get("expunges_of_other_sessions_delivered", 0)
